@@ -94,6 +94,13 @@ Theorem c43_decompress_compress : forall d, decompress_bytes (compress_bytes d) 
 Proof. exact decompress_compress. Qed.
 Print Assumptions c43_decompress_compress.
 
+(** ... so the stored section vectors lose nothing: two 512-byte vectors (any two vectors of one
+    length) with the same compressed record are the same vector. *)
+Theorem c43_compress_injective : forall d1 d2,
+  length d1 = length d2 -> compress_bytes d1 = compress_bytes d2 -> d1 = d2.
+Proof. exact compress_injective. Qed.
+Print Assumptions c43_compress_injective.
+
 (** The two record families cannot collide: keys are injective on uint32 heights / (uint16 bit,
     uint32 section) pairs and the families are disjoint. *)
 Theorem c43_keys_distinct : forall h h' i s i' s',
